@@ -175,6 +175,10 @@ Fixpoint clean_asis (src : cfg) : cfg :=
 Section Merge.
   (** what [merge] does with [src] when [dest] is nil *)
   Variable cl : cfg -> res cfg.
+  (** Go iterates Unflatten(src) in an undefined order; that only matters when
+      src holds a dotted key next to the map it expands into (C20-F4 aftermath).
+      [flip] makes the model iterate the other way round. *)
+  Variable flip : bool.
 
   (** merge.go: merge / mergeMaps / mergeSlices.  Structurally recursive on
       [dest]: mergeMaps visits every key of Unflatten(src) once, so the loop is
@@ -186,7 +190,7 @@ Section Merge.
     | Map dm =>
         match src with
         | Map sm =>
-            let usm := unflatten sm in
+            let usm := unflatten (if flip then rev sm else sm) in
             let fix upd (dm : list (key * cfg)) : res (list (key * cfg)) :=
                 match dm with
                 | [] => Ok []
@@ -235,7 +239,7 @@ Section Merge.
     end.
 End Merge.
 
-Definition merge0 : cfg -> cfg -> res cfg := merge_with (fun s => Ok (clean_asis s)).
+Definition merge0 : cfg -> cfg -> res cfg := merge_with (fun s => Ok (clean_asis s)) false.
 
 (** cleanSuffix after fixes/C20-F3.diff: result[name] = merge(result[name], cleanSuffix(v)).
     The inner merge only meets already cleaned values, on which the repaired and
@@ -259,8 +263,8 @@ Fixpoint clean_fixed (src : cfg) : res cfg :=
   | _ => Ok src
   end.
 
-Definition merge (fix3 : bool) : cfg -> cfg -> res cfg :=
-  merge_with (if fix3 then clean_fixed else fun s => Ok (clean_asis s)).
+Definition merge (fix3 flip : bool) : cfg -> cfg -> res cfg :=
+  merge_with (if fix3 then clean_fixed else fun s => Ok (clean_asis s)) flip.
 
 (* ------------------------------------------------------------------ environment *)
 
@@ -313,7 +317,7 @@ Fixpoint tag_of (nk val : string) (seen : list (string * string)) : nat :=
 
 Section Env.
   Variable to_real : string -> cfg.      (* toRealType: YAML typing of a scalar text (oracle) *)
-  Variables fix3 fix4 : bool.
+  Variables fix3 fix4 flip : bool.
   Variable pfx : string.
 
   Definition norm_env (env : list (string * string)) : list (string * string) :=
@@ -338,7 +342,7 @@ Section Env.
                  | Panic => Panic
                  | Ok dest =>
                      let k := if strip_keys then strip (fst kv) else fst kv in
-                     match merge fix3 (get k dest) (snd kv) with
+                     match merge fix3 flip (get k dest) (snd kv) with
                      | Ok nv => Ok (set k nv dest)
                      | Panic => Panic
                      end
